@@ -178,24 +178,94 @@ theorem wrap64_exact (n : Int) (h1 : -9223372036 ≤ n) (h2 : n ≤ 9223372036) 
   unfold wrap64 second
   omega
 
+-- F41: the clamp and what it gives
+theorem clampSeconds_range (n : Int) : -9223372036 ≤ clampSeconds n ∧ clampSeconds n ≤ 9223372036 := by
+  unfold clampSeconds maxSeconds
+  omega
+
+/-- In range the clamp changes nothing. -/
+theorem clampSeconds_exact (n : Int) (h1 : -9223372036 ≤ n) (h2 : n ≤ 9223372036) : clampSeconds n = n := by
+  unfold clampSeconds maxSeconds
+  omega
+
+theorem clampSeconds_hi (n : Int) (h : 9223372036 ≤ n) : clampSeconds n = 9223372036 := by
+  unfold clampSeconds maxSeconds
+  omega
+
+theorem clampSeconds_lo (n : Int) (h : n ≤ -9223372036) : clampSeconds n = -9223372036 := by
+  unfold clampSeconds maxSeconds
+  omega
+
+/-- The clamp keeps the sign. -/
+theorem clampSeconds_neg (n : Int) (h : n < 0) : clampSeconds n ≤ -1 := by
+  unfold clampSeconds maxSeconds
+  omega
+
+theorem clampSeconds_pos (n : Int) (h : 0 < n) : 1 ≤ clampSeconds n := by
+  unfold clampSeconds maxSeconds
+  omega
+
+/-- The clamp is monotone: a server that states a longer lifetime never gets a shorter one. -/
+theorem clampSeconds_mono (a b : Int) (h : a ≤ b) : clampSeconds a ≤ clampSeconds b := by
+  unfold clampSeconds maxSeconds
+  omega
+
+/-- The `int64` product of the clamped number of seconds never wraps. -/
+theorem wrap64_clamp (n : Int) : wrap64 (clampSeconds n * second) = clampSeconds n * second :=
+  wrap64_exact _ (clampSeconds_range n).1 (clampSeconds_range n).2
+
+/-- The lifetime of every non-zero `expires_in`, without `int64` in it. -/
+theorem lifetimeNs_eq (n : Int) (h0 : n ≠ 0) : lifetimeNs n = clampSeconds n * second := by
+  simp [lifetimeNs, h0, wrap64_clamp]
+
 theorem lifetimeNs_exact (n : Int) (h0 : n ≠ 0) (h1 : -9223372036 ≤ n) (h2 : n ≤ 9223372036) :
     lifetimeNs n = n * second := by
-  simp [lifetimeNs, h0, wrap64_exact n h1 h2]
+  rw [lifetimeNs_eq n h0, clampSeconds_exact n h1 h2]
+
+/-- A negative `expires_in`, of ANY magnitude, is a lifetime of at most −1 s. -/
+theorem lifetimeNs_neg (n : Int) (h : n < 0) : lifetimeNs n ≤ -second := by
+  rw [lifetimeNs_eq n (by omega)]
+  have := clampSeconds_neg n h
+  unfold second
+  omega
+
+/-- A positive `expires_in`, of ANY magnitude, is a lifetime of at least 1 s. -/
+theorem lifetimeNs_pos (n : Int) (h : 0 < n) : second ≤ lifetimeNs n := by
+  rw [lifetimeNs_eq n (by omega)]
+  have := clampSeconds_pos n h
+  unfold second
+  omega
+
+-- F41: the computation as it was before the fix, kept for the record (`Props/C10T.lean`, `…_before_F41`)
+/-- `time.Duration(tok.ExpiresIn) * time.Second` on the unclamped `expires_in`: the `int64` product wraps. -/
+def lifetimeNsBeforeF41 (expiresIn : Int) : Int :=
+  if expiresIn = 0 then 60 * second else wrap64 (expiresIn * second)
+
+/-- The fix changes nothing where the old product did not wrap. -/
+theorem lifetimeNs_eq_before_F41_in_range (n : Int) (h1 : -9223372036 ≤ n) (h2 : n ≤ 9223372036) :
+    lifetimeNs n = lifetimeNsBeforeF41 n := by
+  unfold lifetimeNs lifetimeNsBeforeF41
+  rw [clampSeconds_exact n h1 h2]
 
 /-! ## The transport model's `finish` -/
 
 theorem pickToken_eq (w : WireToken) : Auth.pickToken w.token w.accessToken = pickAccess w := rfl
 
+-- F41: no upper bound on `expires_in` any more (was `h1 : w.expiresIn ≤ 9223372036`): both models clamp
 /-- The lifetime of the transport model (seconds, a natural number, then milliseconds) is this model's
-lifetime (nanoseconds) on the range where `int64` does not wrap. -/
-theorem lifeOf_eq (w : WireToken) (h0 : 0 ≤ w.expiresIn) (h1 : w.expiresIn ≤ 9223372036) :
+lifetime (nanoseconds) for EVERY `expires_in` that is not negative. -/
+theorem lifeOf_eq (w : WireToken) (h0 : 0 ≤ w.expiresIn) :
     ((Auth.lifeOf w.expiresIn.toNat * 1000 : Nat) : Int) * 1000000 = lifetimeNs w.expiresIn := by
   by_cases hz : w.expiresIn = 0
   · simp [hz, Auth.lifeOf, lifetimeNs, Auth.defaultExpirySec, second]
   · have hn : w.expiresIn.toNat ≠ 0 := by omega
-    rw [lifetimeNs_exact w.expiresIn hz (by omega) h1]
-    simp only [Auth.lifeOf, hn, if_false, second]
-    have : ((w.expiresIn.toNat : Nat) : Int) = w.expiresIn := Int.toNat_of_nonneg h0
-    omega
+    have hc : ((w.expiresIn.toNat : Nat) : Int) = w.expiresIn := Int.toNat_of_nonneg h0
+    rw [lifetimeNs_eq w.expiresIn hz]
+    simp only [Auth.lifeOf, hn, if_false, second, Auth.maxExpirySec]
+    by_cases hb : w.expiresIn ≤ 9223372036
+    · rw [clampSeconds_exact _ (by omega) hb, Nat.min_eq_left (by omega)]
+      omega
+    · rw [clampSeconds_hi _ (by omega), Nat.min_eq_right (by omega)]
+      omega
 
 end OciModel.TokenDecode
